@@ -60,6 +60,13 @@ structure WF (b : Book) : Prop where
   child : ∀ i, i < b.size → ∀ e ∈ (b.nd i).children, e.2 < b.size ∧ (e.1, i) ∈ (b.nd e.2).parents
   parent : ∀ i, i < b.size → ∀ e ∈ (b.nd i).parents, e.2 < b.size ∧ (e.1, i) ∈ (b.nd e.2).children
 
+/-- child lists are strictly ordered by move (`std::map<U16,BookNode*>`) -/
+def SortedCh (l : List (Nat × Nat)) : Prop := l.Pairwise (fun a c => a.1 < c.1)
+/-- parent lists are strictly ordered by (move, parent) (`std::set<ParentInfo>`) -/
+def SortedPa (l : List (Nat × Nat)) : Prop := l.Pairwise (fun a c => linkLt a c = true)
+/-- every link list of the book is ordered as the C++ containers order them (a representation invariant of the model) -/
+def SortedLinks (b : Book) : Prop := ∀ j, SortedCh (b.nd j).children ∧ SortedPa (b.nd j).parents
+
 /-- ghost topological rank: strictly increasing along child links, bounded by the number of nodes -/
 structure Ranked (b : Book) (r : Nat → Nat) : Prop where
   bound : ∀ i, i < b.size → r i < b.size
@@ -74,6 +81,7 @@ def ParityOk (b : Book) : Prop :=
 structure FixedPoint (b : Book) : Prop where
   nonempty : 0 < b.size
   wf : WF b
+  sorted : SortedLinks b
   acyclic : Acyclic b
   root : (b.nd 0).depth = 0 ∧ (b.nd 0).parents = [] ∧ pe2 (b.nd 0) = (0, 0)
   depth : ∀ i, 0 < i → i < b.size → depthOk b i
